@@ -7,6 +7,8 @@
 #include <vector>
 #include <fstream>
 #include <sstream>
+#include <unistd.h>
+#include <sys/wait.h>
 using namespace photon::rpc;
 static std::string why;
 #define FAIL(m) do { why = m; return false; } while (0)
@@ -59,11 +61,51 @@ static bool case_roundtrip(uint64_t nl, uint64_t bl, uint64_t cut) {
     if (memcmp(t->name.addr(), nm.data(), t->name.size()) || memcmp(t->blob.addr(), bb.data(), bl)) FAIL("round trip: bytes differ");
     return true;
 }
+// (4) a CHECKED message whose field bytes were altered in transit must be rejected
+struct CMsg : public CheckedMessage<> {
+    int32_t a; string name; int64_t b;
+    PROCESS_FIELDS(name);
+};
+static bool case_checksum(uint64_t nl, uint64_t flip_at, int where) {
+    std::vector<char> nm(nl + 2, 'n'); nm[nl + 1] = 0;
+    CMsg m; m.a = 5; m.b = 6; m.name.assign((const void*)nm.data(), nl + 2);
+    SerializerIOV ser; ser.serialize(m);
+    std::vector<char> flat(ser.iov.sum()); ser.iov.memcpy_to(flat.data(), flat.size());
+    size_t field_bytes = nl + 2;
+    size_t pos = where == 0 ? flip_at % field_bytes                       // inside the variable-length field
+                            : field_bytes + sizeof(uint32_t) + 4 + flip_at % 4;      // inside the fixed part of the body (member a)
+    flat[pos] ^= 0x20;
+    IOVector in; in.push_back(flat.data(), flat.size());
+    DeserializerIOV des; CMsg* t = des.deserialize<CMsg>(&in);
+    if (t) FAIL(where == 0 ? "checked message accepted although a byte of a variable-length field was altered" : "checked message accepted although a byte of the body was altered");
+    return true;
+}
+// (5) an array of strings whose declared length exceeds the input must fail cleanly (run in a child: a crash is a finding)
+struct AMsg : public Message { int32_t a; array<string> names; PROCESS_FIELDS(names); };
+static bool case_hostile_array(uint64_t arr_len, uint64_t payload) {
+    pid_t pid = fork();
+    if (pid == 0) {
+        AMsg h; h.a = 1; h.names._ptr = nullptr; h.names._len = arr_len;
+        std::vector<char> bytes(payload + sizeof(AMsg), 0);
+        memcpy(bytes.data() + payload, &h, sizeof(AMsg));
+        IOVector iov; iov.push_back(bytes.data(), bytes.size());
+        DeserializerIOV d; AMsg* t = d.deserialize<AMsg>(&iov);
+        if (t) { for (auto& s : t->names) if (!inside(s.addr(), s.size(), bytes)) _exit(7); }
+        _exit(0);
+    }
+    int st = 0; waitpid(pid, &st, 0);
+    if (WIFSIGNALED(st)) FAIL("deserializing an array of strings with a hostile length crashed instead of failing cleanly");
+    if (WIFEXITED(st) && WEXITSTATUS(st) == 7) FAIL("array element outside the supplied bytes");
+    return true;
+}
+static bool is_known(const char* cls) { const char* k = getenv("VERIF_KNOWN"); return k && strstr(k, cls); }
 static long long jnum(const std::string& j, const char* key) { auto p = j.find(std::string("\"") + key + "\""); if (p == std::string::npos) return 0; p = j.find(':', p); return strtoll(j.c_str() + p + 1, 0, 10); }
 int main(int argc, char** argv) {
     if (argc >= 3 && !strcmp(argv[1], "--replay")) {
         std::ifstream f(argv[2]); std::stringstream ss; ss << f.rdbuf(); std::string j = ss.str(); bool ok = true;
         if (j.find("\"kind\": \"anchor\"") != std::string::npos) ok = case_anchor(jnum(j, "off"), jnum(j, "len"), jnum(j, "n"));
+        else if (j.find("\"kind\": \"hostile_array\"") != std::string::npos) ok = case_hostile_array(jnum(j, "arr_len"), jnum(j, "payload"));
+        else if (j.find("\"kind\": \"checksum\"") != std::string::npos) ok = case_checksum(jnum(j, "name_len"), jnum(j, "flip_at"), (int)jnum(j, "where"));
         else if (j.find("\"kind\": \"hostile\"") != std::string::npos) ok = case_hostile(jnum(j, "name_len"), jnum(j, "blob_len"), jnum(j, "payload"));
         else ok = case_anchor(1 << 20, 16, 8) && case_hostile(0, 0, 4);     // canonical inputs for the contract obligations
         printf("%s %s\n", ok ? "NOT-REPRODUCED" : "REPRODUCED", why.c_str()); return 0;
@@ -75,6 +117,13 @@ int main(int argc, char** argv) {
         ++cases; if (!case_anchor(off, len, n)) { printf("CEX anchor {\"kind\": \"anchor\", \"off\": %ld, \"len\": %lu, \"n\": %lu, \"why\": \"%s\"}\n", off, len, n, why.c_str()); return 3; }
         uint64_t payload = rnd() % 48, nl = rnd() % 3 == 0 ? 0 : rnd() % 64, bl = rnd() % 3 == 0 ? 0 : rnd() % 64; if (rnd() % 8 == 0) nl = rnd();
         ++cases; if (!case_hostile(nl, bl, payload)) { printf("CEX hostile {\"kind\": \"hostile\", \"name_len\": %lu, \"blob_len\": %lu, \"payload\": %lu, \"why\": \"%s\"}\n", nl, bl, payload, why.c_str()); return 3; }
+        { uint64_t nl = rnd() % 24, fa = rnd(); int where = rnd() % 2; static bool told = false; ++cases;
+          if (!case_checksum(nl, fa, where)) {
+              const char* cls = where == 0 ? "checksum_fields" : "checksum_body";
+              if (is_known(cls)) { if (!told) { printf("KNOWN %s {\"kind\": \"checksum\", \"name_len\": %lu, \"flip_at\": %lu, \"where\": %d, \"why\": \"%s\"}\n", cls, nl, fa, where, why.c_str()); told = true; } }
+              else { printf("CEX %s {\"kind\": \"checksum\", \"name_len\": %lu, \"flip_at\": %lu, \"where\": %d, \"why\": \"%s\"}\n", cls, nl, fa, where, why.c_str()); return 3; } } }
+        if (k % 64 == 0) { uint64_t al = (rnd() % 8 + 1) * 16, pl = rnd() % 48; ++cases;
+          if (!case_hostile_array(al, pl)) { printf("CEX hostile_array {\"kind\": \"hostile_array\", \"arr_len\": %lu, \"payload\": %lu, \"why\": \"%s\"}\n", al, pl, why.c_str()); return 3; } }
         ++cases; if (!case_roundtrip(rnd() % 40, rnd() % 40, rnd())) { printf("CEX roundtrip {\"kind\": \"roundtrip\", \"why\": \"%s\"}\n", why.c_str()); return 3; }
     }
     printf("OK %lu (hostile slices, hostile field descriptors through the real DeserializerIOV, honest fragmented round trips)\n", cases);
